@@ -554,6 +554,32 @@ fn spawn_h2_request(mut sender: H2Sender, q: ReqPlan) -> tokio::task::JoinHandle
     })
 }
 
+/// Ask the server to shut down, in one of the three ways the API offers: close().await; dropping the
+/// HttpServer (the CloseHandle's Drop signals the serving task); or dropping it while it is also being
+/// awaited through a wait_for_shutdown() future.  Whoever observes completion logs close_returned.
+fn request_shutdown<C: dropshot::ServerContext>(srv: dropshot::HttpServer<C>, how: u32) -> tokio::task::JoinHandle<Result<(), String>> {
+    match how {
+        0 => {
+            emit("close_call", json!({"via": "close"}));
+            tokio::spawn(async move {
+                let res = srv.close().await;
+                emit("close_returned", json!({"ok": res.is_ok(), "via": "close"}));
+                res
+            })
+        }
+        _ => {
+            let observer = srv.wait_for_shutdown();
+            emit("close_call", json!({"via": "drop"}));
+            drop(srv);
+            tokio::spawn(async move {
+                let res = observer.await;
+                emit("close_returned", json!({"ok": res.is_ok(), "via": "drop"}));
+                res
+            })
+        }
+    }
+}
+
 type Plan = (Vec<ReqPlan>, Vec<Step>, usize, Vec<bool>);
 
 fn intern(s: &str) -> &'static str {
@@ -692,6 +718,8 @@ async fn run_episode_inner(r: &mut StdRng, ep: u64, mode: &str, given: Option<Pl
     let mut abandoned = false;
     let mut cuts: HashMap<String, usize> = HashMap::new();
     let mut close_called = false;
+    // how shutdown is requested in this episode: close().await (3 in 4) or by dropping the server
+    let close_how: u32 = if r.gen_bool(0.75) { 0 } else { 1 };
 
     for step in &plan {
         if abandoned {
@@ -879,12 +907,7 @@ async fn run_episode_inner(r: &mut StdRng, ep: u64, mode: &str, given: Option<Pl
             Step::Close => {
                 if let Some(srv) = server.take() {
                     close_called = true;
-                    emit("close_call", json!({}));
-                    close_task = Some(tokio::spawn(async move {
-                        let res = srv.close().await;
-                        emit("close_returned", json!({"ok": res.is_ok()}));
-                        res
-                    }));
+                    close_task = Some(request_shutdown(srv, close_how));
                 }
             }
         }
@@ -916,12 +939,7 @@ async fn run_episode_inner(r: &mut StdRng, ep: u64, mode: &str, given: Option<Pl
         }
     }
     if let Some(srv) = server.take() {
-        emit("close_call", json!({}));
-        close_task = Some(tokio::spawn(async move {
-            let res = srv.close().await;
-            emit("close_returned", json!({"ok": res.is_ok()}));
-            res
-        }));
+        close_task = Some(request_shutdown(srv, close_how));
     }
     match tokio::time::timeout(Duration::from_secs(40), close_task.unwrap()).await {
         Ok(_) => {}
